@@ -35,7 +35,9 @@ Proof.
     match goal with |- context [match ?m with Rok a => _ | Rer e0 => SFatal e0 end] => destruct m as [spec_req|er] end; [|reflexivity].
     rewrite Hsame.
     match goal with |- context [get_dist_stack_src ?a u' spec_req (Some maxdg)] => destruct (get_dist_stack_src a u' spec_req (Some maxdg)) as [md|] end.
-    + match goal with |- context [match ?m with Rok a => _ | Rer e0 => SFatal e0 end] => destruct m as [reason|er] end.
+    + match goal with |- context [match ?m with Rok a => _ | Rer e0 => SFatal e0 end] => destruct m as [reason0|er] end.
+      2:{ reflexivity. }
+      match goal with |- context [match ?m with Rok a => _ | Rer e0 => SFatal e0 end] => destruct m as [reason|er] end.
       2:{ reflexivity. }
       match goal with |- context [add_dist ?a1 ?a2 ?a3 ?a4 ?a5 ?a6 ?a7] => destruct (add_dist a1 a2 a3 a4 a5 a6 a7) as [[g1 nodes]|er] end.
       2:{ reflexivity. }
@@ -74,17 +76,17 @@ Proof.
 Qed.
 
 Theorem perform_compile_congr u u' : same_answers u u' ->
-  forall fuel e inputs cons rc md ob_all ob,
-  perform_compile_stack_ob fuel e u inputs cons rc md ob_all ob = perform_compile_stack_ob fuel e u' inputs cons rc md ob_all ob.
+  forall fuel e inputs cons rc md ob_all ob extras,
+  perform_compile_stack_x fuel e u inputs cons rc md ob_all ob extras = perform_compile_stack_x fuel e u' inputs cons rc md ob_all ob extras.
 Proof.
-  intros Hsame fuel e inputs cons rc md ob_all ob. unfold perform_compile_stack_ob.
+  intros Hsame fuel e inputs cons rc md ob_all ob extras. unfold perform_compile_stack_x.
   destruct (match cons with Some cs => collect_pins cs true [] | None => Rok (true, []) end) as [[all_pinned pins]|er]; [|reflexivity].
   match goal with |- match ?m with Rok p => _ | Rer e0 => CFatal e0 end = _ => destruct m as [[g0 cnodes]|er] end; [|reflexivity].
   destruct (add_containers e g0 inputs []) as [[g1 roots]|er]; [|reflexivity].
   cbv zeta.
   rewrite (fold_left_congr _
     (fun acc nd => match acc with
-                   | SOk ga => compile_roots fuel e u' (mkO (if all_pinned && match cons with Some (_ :: _) => true | _ => false end then pins else []) true ob_all ob)
+                   | SOk ga => compile_roots fuel e u' (mkO (if all_pinned && match cons with Some (_ :: _) => true | _ => false end then pins else []) true ob_all ob extras)
                                  ga nd None 1 (match md with Some m => m | None => max_downgrade end) []
                    | other => other end)).
   - reflexivity.
@@ -138,21 +140,21 @@ Qed.
 (* C07, whole compile: outcome, final graph, roots, failing requirement - everything - is the same *)
 Theorem whole_compile_listing_order_free rs rs' :
   stacks_same_up_to_order rs rs' ->
-  forall fuel e inputs cons rc md ob_all ob,
-  perform_compile_stack_ob fuel e rs inputs cons rc md ob_all ob = perform_compile_stack_ob fuel e rs' inputs cons rc md ob_all ob.
+  forall fuel e inputs cons rc md ob_all ob extras,
+  perform_compile_stack_x fuel e rs inputs cons rc md ob_all ob extras = perform_compile_stack_x fuel e rs' inputs cons rc md ob_all ob extras.
 Proof. intros H. apply perform_compile_congr. apply stacks_same_answers. exact H. Qed.
 
 Corollary single_repository_listing_order_free u u' :
   same_up_to_order u u' ->
   forall fuel e inputs cons rc ap md, perform_compile fuel e u inputs cons rc ap md = perform_compile fuel e u' inputs cons rc ap md.
 Proof.
-  intros H fuel e inputs cons rc ap md. unfold perform_compile, perform_compile_stack.
+  intros H fuel e inputs cons rc ap md. unfold perform_compile, perform_compile_stack, perform_compile_stack_ob.
   apply whole_compile_listing_order_free. constructor; [exact H|constructor].
 Qed.
 
 (* non-vacuity: two listings of three candidates in different orders *)
 Definition ofx_c (v : N) : ucand :=
-  mkCand "p"%string (mkDist "p"%string (Some (mkV 0 [v] None None None [])) "x"%string [] false) true false.
+  mkCand "p"%string (mkDist "p"%string (Some (mkV 0 [v] None None None [])) "x"%string [] false false) true false.
 Example same_up_to_order_example :
   same_up_to_order [("p"%string, [ofx_c 1; ofx_c 2; ofx_c 3])] [("p"%string, [ofx_c 3; ofx_c 1; ofx_c 2])].
 Proof.
